@@ -2,6 +2,7 @@ package props
 
 import (
 	"fmt"
+	"hash/crc32"
 	"image"
 	"image/color"
 	"reflect"
@@ -78,3 +79,89 @@ func aliasRune(c byte, k int) rune {
 
 // nonASCIIDigits: decimal digits of other scripts (Unicode category Nd) - digits for unicode.IsDigit, not for the symbologies.
 var nonASCIIDigits = []rune("٠١٢٣٤٥٦٧٨٩०१२३४५６７８９０１２３４۵۶߀߁")
+
+// disturb makes two more calls of the same encoder family (one accepted, one rejected) between the encode under
+// test and the reading of its result: a returned barcode must not change when the encoder is used again
+// (shared backing arrays, pooled buffers, templates).
+func disturb(fam string) {
+	var specs []EncSpec
+	switch fam {
+	case "qr":
+		specs = []EncSpec{{Fam: fam, Content: BStr("DISTURB 0123456789"), A: 1, B: 0}, {Fam: fam, Content: BStr("abc"), A: 0, B: 1}}
+	case "datamatrix":
+		specs = []EncSpec{{Fam: fam, Content: BStr("disturb 42")}}
+	case "aztec":
+		specs = []EncSpec{{Fam: fam, Content: BStr("Disturb, 1.5\r\n"), A: 33}, {Fam: fam, Content: BStr("x"), A: 33, B: 77}}
+	case "pdf417":
+		specs = []EncSpec{{Fam: fam, Content: BStr("Disturb 1234567890123 ;;"), A: 1}, {Fam: fam, Content: BStr("x"), A: 9}}
+	case "code128", "code128nc":
+		specs = []EncSpec{{Fam: fam, Content: BStr("Disturb\t1234")}, {Fam: fam, Content: BStr("é")}}
+	case "code39", "code93":
+		specs = []EncSpec{{Fam: fam, Content: BStr("DISTURB-39"), F1: true}, {Fam: fam, Content: BStr("ab\u00e9cd"), F1: true, F2: true}, {Fam: fam, Content: BStr("dis~turb"), F2: true}}
+	case "codabar":
+		specs = []EncSpec{{Fam: fam, Content: BStr("B98-76$C")}, {Fam: fam, Content: BStr("A12x")}}
+	case "ean":
+		specs = []EncSpec{{Fam: fam, Content: BStr("9780201379624")}, {Fam: fam, Content: BStr("7654321")}, {Fam: fam, Content: BStr("12x4567")}}
+	case "2of5", "itf":
+		specs = []EncSpec{{Fam: fam, Content: BStr("9081726354")}, {Fam: fam, Content: BStr("12x4")}}
+	}
+	for _, s := range specs {
+		encodeSpec(s)
+	}
+}
+
+// forgeCRC32 returns four bytes s such that crc32.ChecksumIEEE(prefix||s) == target (used to build different
+// payloads of equal length and equal CRC-32: caches keyed by a checksum instead of the content).
+func forgeCRC32(prefix []byte, target uint32) [4]byte {
+	tab := crc32.IEEETable
+	var rev [256]byte
+	for i, v := range tab {
+		rev[v>>24] = byte(i)
+	}
+	var idx [4]byte
+	r := ^target
+	for k := 3; k >= 0; k-- {
+		i := rev[r>>24]
+		idx[k] = i
+		r = (r ^ tab[i]) << 8
+	}
+	st := ^crc32.Update(0, tab, prefix)
+	var out [4]byte
+	for k := 0; k < 4; k++ {
+		out[k] = byte(st) ^ idx[k]
+		st = tab[idx[k]] ^ (st >> 8)
+	}
+	return out
+}
+
+// crcTwin returns a payload of the same length and the same CRC-32 (IEEE) as a, differing in content.
+func crcTwin(a []byte, seed int) []byte {
+	if len(a) < 5 {
+		return nil
+	}
+	b := make([]byte, len(a))
+	for i := range b {
+		b[i] = a[i] ^ byte(1+(seed+i*7)%250)
+	}
+	f := forgeCRC32(b[:len(b)-4], crc32.ChecksumIEEE(a))
+	copy(b[len(b)-4:], f[:])
+	return b
+}
+
+// foreignWarmup: in every second shard the process first makes one ordinary call of every OTHER encoder family,
+// so that process-wide state shared between packages (caches keyed too coarsely, "first user wins" tables) has
+// been initialised by somebody else before the family under test is used. The other shards start cold.
+func foreignWarmup(own ...string) {
+	if shard()%2 == 0 {
+		return
+	}
+	skip := map[string]bool{}
+	for _, o := range own {
+		skip[o] = true
+	}
+	for _, s := range familyFirstCalls {
+		if !skip[s.Fam] {
+			encodeSpec(s)
+		}
+	}
+}
